@@ -33,11 +33,22 @@ class C18(FprCheck):
         n = 40 if self.tier == "quick" else 700
         refs = self.refs()
         salts = [r for r in refs if r.get("smiles") in FLOATERS]
-        for k in range(n):
+        # molecules whose hydrogens RDKit never makes implicit (isotopically labelled: [2H], [3H]): hydrogens all the same, under
+        # both invariant types
+        labelled = [r for r in refs if "[2H]" in r.get("smiles", "") or "[3H]" in r.get("smiles", "")]
+        picks = [(r, inv) for r in labelled for inv in (True, False)]
+        for k in range(n + len(picks)):
             ref = rng.choice(salts) if k % 2 == 0 else rng.choice(refs)
+            forced_inv = None
+            if k >= n:
+                ref, forced_inv = picks[k - n]
+                self.count("labelled-hydrogens")
             mol = MG.load_ref(ref)
             ci = rng.randrange(mol.GetNumConformers())
             o = MG.gen_opts(rng)
+            if forced_inv is not None:
+                o["rdkit_invariants"] = forced_inv
+                o["level"] = rng.choice([2, 3, 5])
             if rng.random() < 0.7:
                 o["exclude_floating"] = True
             elif k % 2 == 0:
